@@ -1,0 +1,34 @@
+//go:build verif
+
+package reorgdetector
+
+import (
+	"context"
+	"database/sql"
+)
+
+// VerifLoad does what Start does before launching its ticker goroutine.
+func (rd *ReorgDetector) VerifLoad() error { return rd.loadTrackedHeaders() }
+
+// VerifDetectOnce runs one body of Start's ticker loop.
+func (rd *ReorgDetector) VerifDetectOnce(ctx context.Context) error {
+	return rd.detectReorgInTrackedList(ctx)
+}
+
+// VerifDB exposes the database handle.
+func (rd *ReorgDetector) VerifDB() *sql.DB { return rd.db }
+
+// VerifTracked returns the in-memory tracked block numbers and hashes of a subscriber.
+func (rd *ReorgDetector) VerifTracked(id string) map[uint64]string {
+	rd.trackedBlocksLock.RLock()
+	defer rd.trackedBlocksLock.RUnlock()
+	res := map[uint64]string{}
+	hl, ok := rd.trackedBlocks[id]
+	if !ok {
+		return res
+	}
+	for _, h := range hl.getSorted() {
+		res[h.Num] = h.Hash.Hex()
+	}
+	return res
+}
